@@ -157,3 +157,14 @@ def register(claim):
           NOTE_COMMON + " Two known findings pinned by tests: LENGTH is a no-op branch, String rejects '='. Calendar validity beyond strptime (leap seconds) and "
           "the 1..6 fractional digits tolerance are not decided against FIX 4.4's exact .sss.",
           "DESIGN.md#c19")
+
+    claim("C17", "provenance of every status store, finite evaluation of the report handlers' guard facts against the folded C16 transition tables (ClOrdID pair typestate), "
+          "def-use of the builders' tags with helper inlining, regex AST analysis of the root pattern, tag<->attribute agreement",
+          "Static: every self.status store is an FOrdStatus member/conversion; for every (pending status, ExecType, OrdStatus) cell of the folded tables in which a report "
+          "makes a request permitted again, the handler's guards prove orig_clord_id cleared (and clord_id restored first on a reject); builders start with the gate, fail "
+          "only by the documented FIXError / idle-pair assert, write each tag once, save the live id before drawing the new one, write 11/41 from new/saved id and end "
+          "in their PENDING status; clord_next is the sole id producer (+1, current root); the root regex is anchored at both string ends, greedy, ASCII-digit counter, "
+          "DOTALL; the execution-report handler assigns 151/14/6/37 (and 44/38 on REPLACED) on every returning path and admits only reports quoting one of the two ids.",
+          NOTE_COMMON + " Equality of status / quantities / price with a simulated exchange after arbitrary races and in-flight reordering is arithmetic over report "
+          "values: NOT decided.",
+          "DESIGN.md#c17")
